@@ -24,6 +24,8 @@ type zvC24Case struct {
 	Stall string `json:"writes_stall_on,omitempty"`
 	Schedule []int  `json:"schedule"`
 	Bound    int    `json:"preemption_bound"`
+	// Broken (sequential part): that connection's writes fail when its OPEN is answered; the other handshake runs afterwards
+	Broken string `json:"broken_connection,omitempty"`
 }
 
 type zvC24Obs struct {
@@ -305,6 +307,67 @@ func zvC24Explore(r *vh.Run, c zvC24Case, only []int) {
 	r.Count("executions", e.Executions)
 }
 
+// zvC24AfterWriteFailure: no collision without a second connection. The peer's OPEN on one connection passes collision
+// detection, then the KEEPALIVE answering it cannot be written (broken connection) and that FSM falls back to Active.
+// The peer's handshake on the other connection, run afterwards, must get Established and must not be refused with Cease.
+func zvC24AfterWriteFailure(r *vh.Run, c zvC24Case, broken string) {
+	var established, cease, closed bool
+	x := vsched.Exec(vsched.Config{MaxSteps: 100000}, func() {
+		w := zvNewWorld()
+		o := zvPeerOpts{Addr: 9, Hold: 90 * time.Second, IBGP: c.IBGP}
+		pc := w.peerConfig(o)
+		if !c.IBGP {
+			pc.PeerAS = c.RemoteAS
+		}
+		if err := w.srv.AddPeer(pc); err != nil {
+			panic(err)
+		}
+		p := w.srv.peers.get(w.vrf, zvPeerIP(o))
+		w.srv.Start()
+		c1 := w.activeConnect()
+		c2 := w.incoming(o)
+		open := zvRemoteOpen(o, c.RemoteID)
+		if !c.IBGP {
+			open.AS = uint16(c.RemoteAS)
+			open.Caps = []zvwCap{zvwCapASN4(c.RemoteAS)}
+		}
+		bad, good := c1, c2
+		if broken == "accept" {
+			bad, good = c2, c1
+		}
+		bad.writeErr = fmt.Errorf("broken pipe")
+		bad.deliver(open.bytes())
+		vsched.Settle()
+		good.deliver(open.bytes())
+		vsched.Settle()
+		if !good.isClosed() {
+			good.deliver(zvwKeepalive())
+			vsched.Settle()
+		}
+		closed = good.isClosed()
+		for _, f := range p.fsms {
+			if zc, ok := f.con.(*zvConn); ok && zc == good && zvFSMState(f) == stateNameEstablished {
+				established = true
+			}
+		}
+		for _, m := range zvParseStream(good.out, false, false) {
+			if m.Type == 3 && m.Code == 6 {
+				cease = true
+			}
+		}
+	})
+	r.Eval(1)
+	r.Count("after_write_failure", 1)
+	cc := c
+	cc.Broken = broken
+	sig := vh.Sig("clause", "phantom-collision-after-write-failure", "broken", broken)
+	if x.Status != vsched.Completed {
+		r.Violation(vh.Sig("clause", "run-"+x.Status.String(), "broken", broken), cc, "execution %s: %s %.300s", x.Status, x.Blocked, x.Crash)
+	} else if !established || cease {
+		r.Violation(sig, cc, "the %s connection broke while its OPEN was being answered (its FSM fell back to Active); the peer's handshake on the other connection afterwards: Established %v, refused with Cease %v, closed %v - there is no second connection to collide with", broken, established, cease, closed)
+	}
+}
+
 func TestVerifC24(t *testing.T) {
 	r := vh.Start(t, "C24")
 	defer r.Finish()
@@ -313,11 +376,16 @@ func TestVerifC24(t *testing.T) {
 		bound = 3
 	}
 	r.Rule(fmt.Sprintf("a peer with a dialled and an accepted connection; the remote speaker sends OPEN and KEEPALIVE on both; every schedule with at most %d deviations from the default schedule (any context switch other than the default one counts) of the two remote handshakes with the FSM goroutines, "+
-		"x {local id < remote, local id > remote, equal ids with local AS < / > remote AS} x {iBGP, eBGP} x {no stall, the local writes on the dialled / on the accepted connection block during the handshakes (full send buffer) and complete afterwards}; invariant at every FSM state change and final-state oracle; after every schedule a follow-up without exploration: a third connection while the survivor is Established (must be refused with Cease), then the survivor's session ends and a fourth connection must get Established", bound))
+		"x {local id < remote, local id > remote, equal ids with local AS < / > remote AS} x {iBGP, eBGP} x {no stall, the local writes on the dialled / on the accepted connection block during the handshakes (full send buffer) and complete afterwards}; invariant at every FSM state change and final-state oracle; after every schedule a follow-up without exploration: a third connection while the survivor is Established (must be refused with Cease), then the survivor's session ends and a fourth connection must get Established; plus, sequentially, per identifier case: one connection breaks while its OPEN is answered, the handshake on the other connection afterwards must get Established", bound))
 	r.Require("executions")
 	if r.IsReplay() {
 		var c zvC24Case
 		r.ReplayCase(&c)
+		if c.Broken != "" {
+			zvC24AfterWriteFailure(r, c, c.Broken)
+			r.Count("executions", 1)
+			return
+		}
 		zvC24Explore(r, c, append([]int{}, c.Schedule...))
 		r.Count("executions", 1)
 		return
@@ -342,6 +410,11 @@ func TestVerifC24(t *testing.T) {
 	for i, c := range cases {
 		if !r.Mine(i) {
 			continue
+		}
+		if c.Stall == "" {
+			for _, b := range []string{"dial", "accept"} {
+				zvC24AfterWriteFailure(r, c, b)
+			}
 		}
 		zvC24Explore(r, c, nil)
 		r.Nontrivial(1)
